@@ -1,0 +1,33 @@
+//go:build verif
+
+package quartz
+
+import (
+	"context"
+	"time"
+)
+
+// Verification hooks (build tag "verif") for the scheduler: they call the
+// unexported steps of StdScheduler directly so that the correspondence
+// harness under /verif can single-step them. Nothing here changes behaviour.
+
+// VerifFetchAndReschedule runs one pop-classify-reschedule step of the
+// execution loop (fetchAndReschedule) and returns what it returned.
+func VerifFetchAndReschedule(s Scheduler) (ScheduledJob, bool, error) {
+	return s.(*StdScheduler).fetchAndReschedule()
+}
+
+// VerifCalculateNextTick exposes calculateNextTick.
+func VerifCalculateNextTick(s Scheduler) time.Duration {
+	return s.(*StdScheduler).calculateNextTick()
+}
+
+// VerifExecuteWithRetries exposes executeWithRetries.
+func VerifExecuteWithRetries(s Scheduler, ctx context.Context, jobDetail *JobDetail) {
+	s.(*StdScheduler).executeWithRetries(ctx, jobDetail)
+}
+
+// VerifInterruptPending reports whether the interrupt channel holds a token.
+func VerifInterruptPending(s Scheduler) bool {
+	return len(s.(*StdScheduler).interrupt) > 0
+}
